@@ -141,6 +141,73 @@ fn excluded(id: &str) -> Option<&'static str> {
     EXCLUDED.iter().find(|(f, _)| *f == fx).map(|(_, p)| *p)
 }
 
+/// the top-level items of a source text (cut after every `;` or `}` at bracket depth 0; attributes and comments stay
+/// with the item that follows them)
+fn top_level_items(src: &str) -> Vec<String> {
+    use rustc_lexer::TokenKind as K;
+    let mut items = vec![];
+    let mut depth = 0i32;
+    let mut start = 0usize;
+    let mut pos = 0usize;
+    for t in rustc_lexer::tokenize(src) {
+        pos += t.len as usize;
+        match t.kind {
+            K::OpenBrace | K::OpenParen | K::OpenBracket => depth += 1,
+            K::CloseBrace | K::CloseParen | K::CloseBracket => {
+                depth -= 1;
+                if depth == 0 && t.kind == K::CloseBrace {
+                    items.push(src[start..pos].to_string());
+                    start = pos;
+                }
+            }
+            K::Semi if depth == 0 => {
+                items.push(src[start..pos].to_string());
+                start = pos;
+            }
+            _ => {}
+        }
+    }
+    if !src[start..].trim().is_empty() {
+        items.push(src[start..].to_string());
+    }
+    items
+}
+
+/// the smallest top-level item (or, inside it, the smallest item of a `mod` / `impl` / `trait` / fn body) on which the
+/// case still fails with the same verdict
+fn shrink(c: &Case, verdict: &str, timeout: Duration) -> Option<String> {
+    let mut best: Option<String> = None;
+    let mut cur = c.src.clone();
+    for _round in 0..3 {
+        let parts: Vec<String> = if best.is_none() {
+            top_level_items(&cur)
+        } else {
+            // go one level down: the text between the first `{` and the last `}`
+            match (cur.find('{'), cur.rfind('}')) {
+                (Some(a), Some(b)) if a < b => top_level_items(&cur[a + 1..b]),
+                _ => vec![],
+            }
+        };
+        if parts.len() < 2 && best.is_none() {
+            return None;
+        }
+        let cases: Vec<Case> = parts.iter().enumerate().map(|(k, p)| Case { id: format!("{}#{}", c.id, k), src: format!("{}\n", p.trim()), cfg: c.cfg.clone() }).collect();
+        if cases.is_empty() {
+            break;
+        }
+        let js = judge(&cases, timeout);
+        let failing: Vec<&Case> = cases.iter().zip(js.iter()).filter(|(_, j)| j.verdict == verdict).map(|(c, _)| c).collect();
+        match failing.iter().min_by_key(|c| c.src.len()) {
+            Some(f) => {
+                best = Some(f.src.clone());
+                cur = f.src.clone();
+            }
+            None => break,
+        }
+    }
+    best
+}
+
 fn fam_of(id: &str) -> String {
     if id.starts_with("gen:") { "generated".into() } else { family_of(id) }
 }
@@ -214,10 +281,10 @@ pub fn run(tier: &str, seed: u64, out: &Path) -> i32 {
     } else {
         let mut v: Vec<Case> = clean.iter().filter(|c| c.id.ends_with("|base")).map(|c| (*c).clone()).collect();
         let rest: Vec<&&Case> = clean.iter().filter(|c| !c.id.ends_with("|base")).collect();
-        for _ in 0..5000usize.min(rest.len()) {
+        for _ in 0..8000usize.min(rest.len()) {
             v.push((**rng.pick(&rest)).clone());
         }
-        for _ in 0..3000usize.min(gen_clean.len()) {
+        for _ in 0..24000usize.min(gen_clean.len()) {
             v.push((**rng.pick(&gen_clean)).clone());
         }
         v
@@ -241,7 +308,9 @@ pub fn run(tier: &str, seed: u64, out: &Path) -> i32 {
             "not-equivalent" | "output-does-not-parse" => {
                 programs += 1;
                 o.direct_evals += 1;
-                o.direct_failures.push(json!({"sig": format!("c01:{}:{}", j.verdict, c.id), "what": format!("{}: {}", j.verdict, show_diff(&j.detail)), "case": c.id, "config": cfg_text(&c.cfg), "src": c.src, "request": j.request}));
+                // the first few failures are shrunk to the smallest item that still fails
+                let shrunk = if o.direct_failures.len() < 4 { shrink(c, j.verdict, timeout) } else { None };
+                o.direct_failures.push(json!({"sig": format!("c01:{}:{}", j.verdict, c.id), "what": format!("{}: {}", j.verdict, show_diff(&j.detail)), "case": c.id, "config": cfg_text(&c.cfg), "shrunk_src": shrunk, "src": c.src, "request": j.request}));
             }
             _ => {}
         }
